@@ -274,7 +274,7 @@ func (w *vfC24World) applyExpiry(d vfC24Delivery) string {
 }
 
 // applyOwn folds the result (and the broadcast, if any) of an operation into the reference and checks R3.
-func (w *vfC24World) applyOwn(op vfC24Op, key, data string, res MapUpdateResult, err error, own []vfC24Delivery, now int64) string {
+func (w *vfC24World) applyOwn(op vfC24Op, key, data string, res MapUpdateResult, err error, own []vfC24Delivery, now int64, loTop *uint64) string {
 	c := w.chans[op.Ch]
 	if err != nil {
 		return "unexpected error: " + err.Error()
@@ -307,8 +307,12 @@ func (w *vfC24World) applyOwn(op vfC24Op, key, data string, res MapUpdateResult,
 			c.present[key] = now + c.cfg.KeyTTL.Milliseconds()
 			w.t.refreshedKept++
 		}
-		if res.Position.Offset != c.top && !(res.Position.Epoch == "") {
-			return fmt.Sprintf("suppressed result offset %d, want %d", res.Position.Offset, c.top)
+		lo := c.top
+		if loTop != nil {
+			lo = *loTop // concurrent operation: serialized somewhere between the sweep's remaining events
+		}
+		if (res.Position.Offset < lo || res.Position.Offset > c.top) && !(res.Position.Epoch == "") {
+			return fmt.Sprintf("suppressed result offset %d, want %d..%d", res.Position.Offset, lo, c.top)
 		}
 		return ""
 	}
@@ -406,7 +410,7 @@ func (w *vfC24World) doOp(op vfC24Op) string {
 	if w.held {
 		w.t.opsWhileHeld++
 	}
-	return w.applyOwn(op, key, data, res, err, own, now)
+	return w.applyOwn(op, key, data, res, err, own, now, nil)
 }
 
 // reconcile: R1 (through absorb), R2 and R4 after time has passed.
@@ -750,11 +754,12 @@ func TestVF_C24_Race(t *testing.T) {
 				vfSettle()
 				// fold the log in order: the bg operation's own broadcast is the one carrying its data / a removal of k0
 				var own []vfC24Delivery
+				topBefore := w.chans[0].top
 				for _, d := range w.rec.take(w.seen) {
 					w.seen++
 					if d.Ch == "vA" && d.Pub.Key == "k0" && ((kind == vfC24Remove && d.Pub.Removed) || string(d.Pub.Data) == "bg") {
 						own = append(own, d)
-						if v := w.applyOwn(op, "k0", "bg", r.res, r.err, own, now); v != "" {
+						if v := w.applyOwn(op, "k0", "bg", r.res, r.err, own, now, nil); v != "" {
 							return "bg " + op.String() + ": " + v
 						}
 						continue
@@ -764,7 +769,7 @@ func TestVF_C24_Race(t *testing.T) {
 					}
 				}
 				if len(own) == 0 {
-					if v := w.applyOwn(op, "k0", "bg", r.res, r.err, nil, now); v != "" {
+					if v := w.applyOwn(op, "k0", "bg", r.res, r.err, nil, now, &topBefore); v != "" {
 						return "bg " + op.String() + ": " + v
 					}
 				}
